@@ -10,6 +10,8 @@ CHECKS = {
     # id: (engine, level text, design ref, technique)
     'C01': ('symtex', 'skeleton documents (cover of the documented-construct grammar) with symbolic TEXT/NAME holes: parse succeeds, str(soup)==src and every node text equals its source slice, for all hole values', 'DESIGN.md §5, §7 C01'),
     'C02': ('symtex', 'same exploration as C01: the shape of the parse tree equals the generating syntax tree of the skeleton for all hole values', 'DESIGN.md §7 C02'),
+    'C03': ('symtex', 'find_all / find / count / attribute access / list and full-expression queries against an own traversal of the expression tree, with symbolic names and symbolic queries (name collisions chosen by the solver), every node as search root', 'DESIGN.md §7 C03'),
+    'C04': ('symtex', 'contents / children / iteration / indexing / descendants / text / parent links / root all, checked at every node of every skeleton variant; text holes range over all Unicode whitespace', 'DESIGN.md §7 C04'),
     'C05': ('symtex', 'twin-hole documents: argument texts are symbolic so the solver itself chooses textually identical siblings; every target x edit compared with a string splice computed by node identity', 'DESIGN.md §7 C05'),
     'C06': ('symtex', 'all strings up to the length bound over all of Unicode, both tolerance modes: outcome is a tree or a diagnostic error on every feasible path', 'DESIGN.md §7 C06'),
     'C07': ('symtex', 'strict success implies an identical tolerant result, for all strings up to the length bound', 'DESIGN.md §7 C07'),
